@@ -858,6 +858,15 @@ func (e *Env) trCall(n *ECall) Val {
 		}
 		h := u.arrHeap(st.Elem())
 		return Val{T: app("slice_seq", sel(u.heapCur(e.cur, h), app("sl_base", a.T)), app("sl_off", a.T), app("sl_len", a.T)), S: "RSeq"}
+	case "zone": // the location a time value carries (parameters: the location the caller's value carries)
+		a := e.tr(n.Args[0])
+		return Val{T: u.zoneOf(a), S: "Int", Ty: u.zoneTy()}
+	case "utc":
+		return Val{T: u.zoneConst("zone_utc"), S: "Int", Ty: u.zoneTy()}
+	case "at": // the instant t seen in location z
+		a := e.tr(n.Args[0])
+		z := e.tr(n.Args[1])
+		return zoned(a, z.T)
 	case "cell": // current content of the memory cell of an address-taken variable (e.g. a parameter captured by a closure)
 		id, ok := n.Args[0].(*EIdent)
 		fr := e.fr
@@ -1205,20 +1214,24 @@ func (e *Env) trMethod(n *EMethod) Val {
 		case "IsZero":
 			return Val{T: eq(x.T, "0"), S: "Bool", Ty: boolT}
 		case "Add":
-			return Val{T: app("+", x.T, as[0].T), S: "Int", Ty: x.Ty}
+			return Val{T: app("+", x.T, as[0].T), S: "Int", Ty: x.Ty, Zone: x.Zone}
 		case "Sub":
 			return Val{T: app("-", x.T, as[0].T), S: "Int", Ty: as[0].Ty}
 		case "UTC":
-			return x
+			return zoned(x, u.zoneConst("zone_utc"))
+		case "Local":
+			return zoned(x, u.zoneConst("zone_local"))
 		case "Unix":
 			return Val{T: "(div (- " + x.T + " " + unixEpochNs + ") 1000000000)", S: "Int", Ty: types.Typ[types.Int64]}
 		case "Hour", "Minute", "Second", "Day", "Month", "Weekday", "Year":
 			// the same uninterpreted calendar functions the trusted table uses for package time
 			name := map[string]string{"Hour": "cal_hour", "Minute": "cal_minute", "Second": "cal_second", "Day": "cal_day", "Month": "cal_month", "Weekday": "cal_weekday", "Year": "cal_year"}[n.Name]
-			f := u.enc.declFun(name, []string{"Int"}, "Int")
-			return Val{T: app(f, x.T), S: "Int", Ty: types.Typ[types.Int]}
+			if x.Zone == "" {
+				e.fail("%s() on a time value whose location is not known here: write at(t, zone).%s()", n.Name, n.Name)
+			}
+			return Val{T: app(u.calFn(name), x.T, x.Zone), S: "Int", Ty: types.Typ[types.Int]}
 		case "In":
-			return x
+			return zoned(x, as[0].T)
 		}
 	}
 	if x.Ty != nil && isNamedPtr(x.Ty, "google.golang.org/protobuf/types/known/timestamppb", "Timestamp") && n.Name == "AsTime" {
@@ -1290,6 +1303,23 @@ func (fr *Frame) specEnv(cur, old *State) *Env {
 	return env
 }
 
+// trInvariantTol: like trInvariant, but a clause that names a variable the function no longer has (a renamed or
+// removed local) does not abort the whole function: where the clause is an obligation it counts as failed (dflt
+// "false"), where it would be assumed it is dropped (dflt "true"), and the remaining obligations are still generated.
+func (fr *Frame) trInvariantTol(c *Clause, st *State, h *ssa.BasicBlock, dflt string) (t string) {
+	defer func() {
+		if r := recover(); r != nil {
+			if us, ok := r.(unsupported); ok && clauseStale(us.msg) {
+				fr.u.note("clause of %s cannot be evaluated on this code (%s): %s", fr.fn, us.msg, c.Src)
+				t = dflt
+				return
+			}
+			panic(r)
+		}
+	}()
+	return fr.trInvariant(c, st, h)
+}
+
 func (fr *Frame) trInvariant(c *Clause, st *State, h *ssa.BasicBlock) string {
 	env := fr.specEnv(st, fr.entry)
 	env.header = h
@@ -1319,4 +1349,12 @@ func (fr *Frame) trInvariant(c *Clause, st *State, h *ssa.BasicBlock) string {
 		}
 	}
 	return env.trBool(c.E)
+}
+
+// zoneTy: *time.Location
+func (u *Unit) zoneTy() types.Type {
+	if t := u.cx.lookupType("time", "Location"); t != nil {
+		return types.NewPointer(t)
+	}
+	return types.Typ[types.Int]
 }
